@@ -214,3 +214,39 @@ claim("C27", SM,
       "every result is compared with DiGraph (dominators, post-dominators, immediate ones, tree, frontier, back edges, loops, "
       "components, sons/parents, heads/leaves, has_loop, find_path and find_path_from_src).",
       "TLC; 5-node graphs sampled, larger graphs not explored; simple paths only (cycles_count = 0)", "DESIGN.md 5/C27", "Graph")
+
+JITJ = ("TLA+ reference CPU (JitMachine.tla: an abstract instruction set with one fixed x86-32 encoding per instruction, executed one "
+        "instruction at a time with precise faults and instruction-boundary breakpoints) used as the deciding oracle: scripts played "
+        "on the real jitters are recorded and TLC (JitJudge.tla) plays the same script on the reference and names the first difference")
+
+claim("C20", JITJ,
+      "Random abstract-ISA programs (register hash chain, push log, counted loop, byte and page-straddling 4-byte stores, loads, "
+      "stores into their own code) under page layouts with read-only / missing pages and with breakpoints are run on the python and "
+      "gcc backends rebuilt from the working tree; final registers, memory window, stack log, fault flag, stop reason, pc and "
+      "breakpoint hit sequence of each backend are compared by TLC with the reference CPU, hence with each other.",
+      "TLC; LLVM backend not runnable here (llvmlite missing); x86-32 only; the python backend's handling of page permissions / "
+      "unmapped memory is a recorded known finding", "DESIGN.md 4.5, 5/C20", "JitJudge")
+claim("C21", JITJ,
+      "Each program is run under jit_maxline 1/2/3/50, max_exec_per_call 0/1/2, a 3- or 4-entry block cache (blocks evicted while "
+      "running), cold and again from the same initial state on the warm translation cache, on both backends; every configuration "
+      "must reproduce the reference CPU's final state, register hash chain and push log (the executed-instruction sequence).",
+      "TLC; the instruction sequence is observed through the hash chain / push log, not per address; python + gcc backends",
+      "DESIGN.md 5/C21", "JitJudge")
+claim("C22", JITJ,
+      "Programs whose stores overwrite the immediate of an earlier, a later-in-the-same-block or another block's instruction, and "
+      "host writes (vm.set_mem) into already translated instructions between runs (also followed by add_breakpoint), under several "
+      "block lengths and cache sizes on both backends: TLC's reference CPU fetches the current bytes, so any stale translation shows "
+      "as a different hash chain / push log.",
+      "TLC; patches target immediates of RT / PU instructions; python + gcc backends", "DESIGN.md 5/C22", "JitJudge")
+claim("C23", JITJ,
+      "Breakpoints on block starts, mid-block instructions, loop heads and never-reached slots, added before translation or after a "
+      "first run (inside already translated blocks), removed between runs, stopping or not, with resumption after a stop, under "
+      "several block lengths / cache sizes on both backends: hit sequence, stop reason and pc must equal the reference CPU's.",
+      "TLC; one callback per address (add_breakpoint / remove_breakpoints_by_address); python + gcc backends", "DESIGN.md 5/C23", "JitJudge")
+claim("C49", JITJ,
+      "Stores, 4-byte stores straddling a page end, loads and pushes hitting read-only or missing pages at the first, middle or last "
+      "position of blocks of several lengths: after the fault TLC requires pc on the instruction, the fault reported and registers, "
+      "memory and stack as before the instruction; after mapping / unprotecting and clearing the fault, continuing must end in the "
+      "reference CPU's final state.",
+      "TLC; an EXCEPT_ACCESS_VIOL handler that stops the run is installed; gcc backend decides, the python backend's behaviour is a "
+      "recorded known finding", "DESIGN.md 5/C49", "JitJudge")
